@@ -48,4 +48,9 @@ def runRules (multi : Bool) (cb : Rule → List Bool) : List Rule → List Nat
     let matched := outs.getLast?.getD false
     reps ++ (if matched && !multi then [] else runRules multi cb rs)
 
+/-- a whole run over the visits `(node id, tag)` of a file: `(node id, rule id)` in delivery order -/
+def runOver (dst : Nat → List Nat) (multi : Nat → Bool) (hist : List (List Rule))
+    (cb : Nat → Rule → List Bool) (visits : List (Nat × Nat)) : List (Nat × Nat) :=
+  visits.flatMap fun v => (runRules (multi v.2) (cb v.1) (loadAll dst hist v.2)).map fun r => (v.1, r)
+
 end Rules
